@@ -655,6 +655,19 @@ func GenRobustnessScript(t *rapid.T, thorough bool) *Script {
 		Name: "ww-p0", CPUm: 100, MemMi: 128, State: "pending", NodeSelector: map[string]string{"witness": "true"},
 		Tolerations: []TolerationSpec{{Key: "witness", Operator: "Exists"}}}}})
 	var ops []Op
+	if chance(t, "witnesstopology", 35) {
+		// the witness has a required topology level on a well-formed Topology of its own: Topology objects of other
+		// workloads (without levels, with unknown levels) must not keep it from being placed
+		wi := len(s.World.Workloads) - 1
+		s.World.Topologies = append(s.World.Topologies, TopologySpec{Name: "witness-topo", Levels: []string{"kaisim/witness-zone", "kubernetes.io/hostname"}})
+		nw := &s.World.Nodes[len(s.World.Nodes)-1]
+		nw.Labels["kaisim/witness-zone"] = "zw"
+		nw.Labels["kubernetes.io/hostname"] = "nw"
+		s.World.Workloads[wi].Topo = &TopoConstraint{Topology: "witness-topo", Required: pick(t, "witnesslevel", "kaisim/witness-zone", "kubernetes.io/hostname")}
+		for i := rapid.IntRange(0, 2).Draw(t, "ntopoinject"); i > 0; i-- {
+			ops = append(ops, Op{Kind: "inject", Arg: pick(t, "itopokind", "topology-no-levels", "pg-unknown-topology-level", "pg-unknown-topology"), N: rapid.IntRange(0, 14).Draw(t, "ivariant")})
+		}
+	}
 	ninj := rapid.IntRange(1, 4).Draw(t, "ninject")
 	for i := 0; i < ninj; i++ {
 		ops = append(ops, Op{Kind: "inject", Arg: pick(t, "ikind", InjectKinds...), N: rapid.IntRange(0, 14).Draw(t, "ivariant")})
